@@ -181,7 +181,7 @@ def strategy(spec, ctx):
         'tseed': st.integers(0, 2 ** 16),
         'nlines': st.integers(0, 6),
         'seps': st.lists(st.sampled_from(['\n', '\n', ' ', '\r\n', '\r', '\n\n', ' é ', '']), min_size=1, max_size=3),
-        'head': st.text(st.characters(exclude_categories=['Cs']), max_size=4),
+        'head': st.one_of(st.text(st.characters(exclude_categories=['Cs']), max_size=4), st.sampled_from(['\ufeff', '\ufeffa', '\ufffe', '\x00', '\r', '\n', '\x1a', '#!'])),
         'tail': st.text(st.characters(exclude_categories=['Cs']), max_size=4),
         'nl': st.one_of(st.integers(0, 6), st.integers(0, 80)),
         'nr': st.one_of(st.integers(0, 6), st.integers(0, 80)),
